@@ -13,7 +13,9 @@
         header = C19 header
         vs  = [m (rank_in*n); s_out (rank_out*n); ua (the single mask stream, cells in draw order: col outer, row inner);
                errors (draw order); ua' (same prefix of the stream of the flipped mask seed); errors' (flipped error seed)]
-        out = [cells in slot order; flags [deterministic; mask_eq(m'); mask_eq(e'); body_eq(e'); mask_eq(ua')]]
+        out = [cells in slot order; flags [deterministic; mask_eq(m'); mask_eq(e'); body_eq(e'); mask_eq(ua');
+                                          masks of all cells of all entries pairwise distinct]]
+        ua / errors cover the WHOLE object (all entries); the model derives the entry's share
    6005 standard GGSW (kind 0), or entry ps[15] of a CGGI blind-rotation key over an LWE secret of dimension ps[4] (kind 1: GGSW i
         encrypts the constant polynomial s_lwe[i]; mask and error streams continue from GGSW to GGSW):
         vs = [m (n); s (rank*n); ua; errors; ua'; errors'], cells (row, col_j), plaintext on column col_j
@@ -69,8 +71,21 @@ Definition digits (b : Z) (us : list Z) : list Z := map (uniform_digit b) us.
 Definition errs_same_on_torus (b nk : Z) (errs errs' : list Z) : bool :=
   let M := 2 ^ ((Z.of_nat (target_limb nk b) + 1) * b) in
   Nat.eqb (length errs) (length errs') && forallb (fun q => (fst q - snd q) mod M =? 0) (combine errs errs').
-Definition gadget_flags (b nk : Z) (ua ua' errs errs' : list Z) : list Z :=
-  [1; 1; 1; bz (errs_same_on_torus b nk errs errs'); bz (eqlz (digits b ua) (digits b ua'))].
+(* are the lists pairwise different? *)
+Fixpoint pairwise_distinct (l : list (list Z)) : bool :=
+  match l with
+  | [] => true
+  | x :: t => forallb (fun y => negb (eqlz x y)) t && pairwise_distinct t
+  end.
+
+(* flags of entry `entry` of an object of `entries` entries with `cells` cells each; `ua`, `errs` are the mask stream and the error
+   blocks of the WHOLE object (the entries follow one another on the single mask source and on the error source);
+   last flag: the masks of all cells of all entries are pairwise distinct (every cell consumes its own part of the stream) *)
+Definition gadget_flags (b nk : Z) (clen n entries cells entry : nat) (ua ua' errs errs' : list Z) : list Z :=
+  let eu := fun u => slice (entry * cells * clen) (cells * clen) u in
+  let ee := fun e => slice (entry * cells * n) (cells * n) e in
+  [1; 1; 1; bz (errs_same_on_torus b nk (ee errs) (ee errs')); bz (eqlz (digits b (eu ua)) (digits b (eu ua')));
+   bz (pairwise_distinct (map (fun j => digits b (slice (j * clen) clen ua)) (seq 0 (entries * cells))))].
 
 Definition run_gglwe_std (ps : list Z) (vs : list (list Z)) : option (list (list Z)) :=
   let wb := wbig (p ps 0) in
@@ -79,14 +94,20 @@ Definition run_gglwe_std (ps : list Z) (vs : list (list Z)) : option (list (list
   let ms := chunks n rin (v vs 0) in
   let sk := chunks n rout (v vs 1) in
   let clen := (rout * size * n)%nat in
+  let ncells := (dnum * rin)%nat in
+  (* a GGLWE->GGSW key (kind 4) is `rank_out` GGLWEs encrypted one after the other with the same two sources: entry ps[15]
+     starts after the cells of the earlier entries *)
+  let entries := if p ps 9 =? 4 then rout else 1%nat in
+  let entry := if p ps 9 =? 4 then np ps 15 else O in
+  let base := (entry * ncells)%nat in
   let slots := flat_map (fun row => map (fun col => (row, col)) (seq 0 rin)) (seq 0 dnum) in
   match sequence (map (fun rc =>
            let row := fst rc in let col := snd rc in
-           let d := gglwe_draw_index dnum row col in
+           let d := (base + gglwe_draw_index dnum row col)%nat in
            gadget_cell wb b n size rout dsize nk row O (nth col ms []) sk
              (slice (d * clen) clen (v vs 2)) (slice (d * clen) clen (v vs 2)) (slice (d * n) n (v vs 3))) slots) with
   | None => None
-  | Some cells => Some [concat (map (of_cols n size) cells); gadget_flags b nk (v vs 2) (v vs 4) (v vs 3) (v vs 5)]
+  | Some cells => Some [concat (map (of_cols n size) cells); gadget_flags b nk clen n entries ncells entry (v vs 2) (v vs 4) (v vs 3) (v vs 5)]
   end.
 
 Definition run_ggsw_std (ps : list Z) (vs : list (list Z)) : option (list (list Z)) :=
@@ -96,15 +117,57 @@ Definition run_ggsw_std (ps : list Z) (vs : list (list Z)) : option (list (list 
   let m := v vs 0 in
   let sk := chunks n rank (v vs 1) in
   let clen := (rank * size * n)%nat in
+  let ncells := (dnum * S rank)%nat in
+  (* a blind-rotation key (kind 1) is ps[4] GGSWs encrypted one after the other with the same two sources *)
+  let entries := if p ps 9 =? 1 then np ps 4 else 1%nat in
+  let entry := if p ps 9 =? 1 then np ps 15 else O in
+  let base := (entry * ncells)%nat in
   let slots := flat_map (fun row => map (fun col => (row, col)) (seq 0 (S rank))) (seq 0 dnum) in
   match sequence (map (fun rc =>
            let row := fst rc in let col := snd rc in
-           let d := ggsw_draw_index rank row col in
+           let d := (base + ggsw_draw_index rank row col)%nat in
            gadget_cell wb b n size rank dsize nk row col m sk
              (slice (d * clen) clen (v vs 2)) (slice (d * clen) clen (v vs 2)) (slice (d * n) n (v vs 3))) slots) with
   | None => None
-  | Some cells => Some [concat (map (of_cols n size) cells); gadget_flags b nk (v vs 2) (v vs 4) (v vs 3) (v vs 5)]
+  | Some cells => Some [concat (map (of_cols n size) cells); gadget_flags b nk clen n entries ncells entry (v vs 2) (v vs 4) (v vs 3) (v vs 5)]
   end.
+
+(* ---- 6006: which seed does every cell of a compressed composite object store?
+   kinds ps[9]: 0 GGLWE 1 switching 2 automorphism 3 tensor key (one GGLWE-shaped entry), 4 GGLWE->GGSW key (rank_out entries),
+   8 GGSW (one entry), 9 CGGI blind-rotation key (ps[4] GGSW entries).  vs = [table seeds (4 words each); table streams (tlen words each)]
+   is a table seed |-> first words of the ChaCha8 stream keyed by that seed (ChaCha8 itself is not modelled).
+   Derivation, as the generators are written:
+     one entry  : the root seed seed_xa (ps[28..32)) keys the parent stream; the cell encrypted i-th takes words [4i, 4i+4) of it as
+                  its seed (Source::branch), stored at its slot;
+     two levels : entry i takes words [4i, 4i+4) of the ROOT stream as ITS root (gglwe_to_ggsw: source_xa.branch(), blind rotation:
+                  source_xa.new_seed()), and derives its cells from the stream of that seed as above.
+   out = [stored seeds (entry-major, slot order); [stored seeds pairwise distinct; decompressed masks pairwise distinct]] *)
+Fixpoint lookup_stream (tlen : nat) (tseeds tstreams seed : list Z) (fuel : nat) : list Z :=
+  match fuel with
+  | O => []
+  | S f => if eqlz (firstn 4 tseeds) seed then firstn tlen tstreams
+           else lookup_stream tlen (skipn 4 tseeds) (skipn tlen tstreams) seed f
+  end.
+
+Definition run_seeds (ps : list Z) (vs : list (list Z)) : option (list (list Z)) :=
+  let rin := np ps 4 in let rout := np ps 5 in let dnum := np ps 6 in let kind := p ps 9 in
+  let ggsw_like := 8 <=? kind in
+  let cols := if ggsw_like then S rout else rin in
+  let cells := (dnum * cols)%nat in
+  let entries := if kind =? 4 then rout else if kind =? 9 then rin else 1%nat in
+  let two := (kind =? 4) || (kind =? 9) in
+  let tlen := (4 * Nat.max cells entries)%nat in
+  let tseeds := v vs 0 in let tstreams := v vs 1 in
+  let look := fun seed => lookup_stream tlen tseeds tstreams seed (S (length tseeds)) in
+  let root := slice 28 4 ps in
+  let slots := flat_map (fun row => map (fun col => (row, col)) (seq 0 cols)) (seq 0 dnum) in
+  let draw := fun rc : nat * nat => if ggsw_like then ggsw_draw_index rout (fst rc) (snd rc) else gglwe_draw_index dnum (fst rc) (snd rc) in
+  let entry_seeds := fun i : nat =>
+    let r := if two then slice (4 * i) 4 (look root) else root in
+    let st := look r in
+    map (fun rc => slice (4 * draw rc) 4 st) slots in
+  let all := concat (map entry_seeds (seq 0 entries)) in
+  Some [concat all; [bz (pairwise_distinct all); 1]].
 
 Definition run_c06 (code : Z) (ps : list Z) (vs : list (list Z)) : option (list (list Z)) :=
   match code with
@@ -112,6 +175,7 @@ Definition run_c06 (code : Z) (ps : list Z) (vs : list (list Z)) : option (list 
   | 6002 => run_flip_lwe ps vs
   | 6004 => run_gglwe_std ps vs
   | 6005 => run_ggsw_std ps vs
+  | 6006 => run_seeds ps vs
   | 6020 => Some [v vs 0]
   | _ => None
   end.
